@@ -220,14 +220,19 @@ impl CompressionCodecState {
 						.map_err(|deflate_error| error("Xz", &deflate_error))?;
 					let written = compress.total_in() as usize - before_in;
 					match status {
-						xz2::stream::Status::MemNeeded => {
+						xz2::stream::Status::MemNeeded | xz2::stream::Status::Ok => {
 							// There may be more to write.
-							// That may be true even if the input is empty, because bzip2
+							// That may be true even if the input is empty, because xz
 							// may have buffered some input.
+							// (`Ok` is what liblzma returns when finishing while there is
+							// still pending output, typically because the output buffer
+							// is full)
 							input = &input[written..];
-							self.output_vec.resize(self.output_vec.len() * 2, 0);
+							if compress.total_out() as usize == self.output_vec.len() {
+								self.output_vec.resize(self.output_vec.len() * 2, 0);
+							}
 						}
-						xz2::stream::Status::Ok | xz2::stream::Status::GetCheck => {
+						xz2::stream::Status::GetCheck => {
 							return Err(error(
 								"Xz",
 								&format_args!("got unexpected status from xz2: {status:?}"),
